@@ -794,3 +794,23 @@ def truthiness_overrides(P, root='Part'):
         return []
     r = P.cls(root)
     return [(c, m) for cs in P.by_name.values() for c in cs if r in c.mro for m in ('__bool__', '__len__') if m in c.methods]
+
+
+# ---- contradiction rule: an attribute the class itself treats as optional ---------------------------------------------------------
+def optional_attr_contradictions(P, c):
+    """(beliefs, violations) for class c.  A belief is a call `getattr(E, '<a>', default)` in a method of c: the class states that
+    objects reached as E may lack attribute a.  E is identified by the last attribute of its chain (`request.target`, `req.target`,
+    `self._queue[i].target` are all "a .target").  A violation is a plain read `<...>.target.<a>` anywhere in the class: the same
+    class relies on the attribute being there (Engler et al.: one of the two is wrong)."""
+    beliefs, viol = [], []
+    for fn in c.methods.values():
+        for x in ast.walk(fn):
+            if isinstance(x, ast.Call) and isinstance(x.func, ast.Name) and x.func.id == 'getattr' and len(x.args) == 3 \
+                    and isinstance(x.args[1], ast.Constant) and isinstance(x.args[1].value, str) and isinstance(x.args[0], ast.Attribute):
+                beliefs.append((x.args[0].attr, x.args[1].value, fn, x))
+    keys = {(b[0], b[1]) for b in beliefs}
+    for fn in c.methods.values():
+        for x in ast.walk(fn):
+            if isinstance(x, ast.Attribute) and isinstance(x.ctx, ast.Load) and isinstance(x.value, ast.Attribute) and (x.value.attr, x.attr) in keys:
+                viol.append((fn, x))
+    return beliefs, viol
